@@ -309,6 +309,30 @@ def run_srvclient(case: dict) -> tuple[list[str], dict]:
                 state["sender"] = asyncio.ensure_future(sender())
                 for _ in range(4):
                     await asyncio.sleep(0)
+            if p.get("via") == "scope":
+                # only the close call is cancelled (a timeout / move-on scope of the handler around client.aclose());
+                # the handler - hence the connection task and its own clean-up - lives on afterwards
+                scope = client.backend().open_cancel_scope()
+                try:
+                    with scope:
+                        inj.scope = scope
+                        inj.arm(asyncio.current_task())
+                        await client.aclose()
+                    state["outcome"] = "cancelled" if scope.cancelled_caught() else "ok"
+                except asyncio.CancelledError:
+                    state["outcome"] = "cancelled"
+                    raise
+                except BaseException as e:  # noqa: BLE001
+                    state["outcome"] = kind(e)
+                finally:
+                    inj.target = None
+                    state["n_end"] = inj.n
+                    state["flag_at_end"] = int(tr.closed)
+                for _ in range(8):
+                    await asyncio.sleep(0)
+                state["alive_flag"] = int(tr.closed)
+                await asyncio.sleep(5.0)
+                return
             inj.arm(asyncio.current_task())
             try:
                 await client.aclose()
@@ -358,6 +382,8 @@ def run_srvclient(case: dict) -> tuple[list[str], dict]:
             lines.append("at " + innermost_lib(inj.injected_at))
         lines.append("outcome " + state["outcome"])
         lines.append(f"inner t={int(t.closed)}")
+        if "alive_flag" in state:
+            lines.append(f"inner-while-alive t={state['alive_flag']}")
         cl = state["client"]
         lines.append(f"closing {int(cl.is_closing()) if cl is not None else -1}")
         if pending:
